@@ -11,8 +11,10 @@
   Model: OLP/Olvm/Model.lean (port of the keeper, the CommitStateDB object cache, TransitionDb, the
   outer layers of EVM.Call / EVM.create, runOLVM, ContractFeeHandling and the session rule; the
   interpreter's run is the parameter `VmOut`). Helper lemmas: OLP/Olvm/Lemmas.lean.
-  The model follows /repo as repaired by da864f3 (RemoveAccount writes the balance) and d9b5b70
-  (validateSigner refuses a missing chain id and a signature that is not 65 bytes long).
+  The model follows /repo HEAD: RemoveAccount leaves a zero balance record (da864f3, c90a103), the
+  undo of a balance entry no longer leaves a dirty mark (d411c44), Validate refuses a missing chain
+  id, a signature that is not 65 bytes long, a non-canonical payload or memo, a foreign envelope
+  key, a transaction type or access list (d9b5b70, e1e2119, f332fc0).
   The standing hypothesis `s.cache = []` ("the EVM object cache is empty between transactions") is
   an invariant of every history (`step_keeps_cache_empty`), so it holds in every reachable state.
 -/
@@ -20,6 +22,13 @@ import OLP.Olvm.Lemmas
 
 namespace OLP.Props.C17
 open OLP OLP.Ledger OLP.Olvm
+
+/-- a well-formed transaction for the examples below: every decoded check passes -/
+def okTx : Tx :=
+  { sender := "a", to := some "t", nonce := 0, value := 0, gas := 21000, price := 1, nz := 0, z := 0,
+    size := 110, memo := some 0, sigs := 1, sigOk := true, chainOk := true, senderOk := true,
+    feeCurOk := true, amtCurOk := true, addrOk := true, chainNil := false, payloadCanon := true,
+    signerKeyOk := true, typeOk := true, memoCanon := true }
 
 /-! ## one ledger -/
 
@@ -178,8 +187,7 @@ theorem created_contract_credit_exact (env : Env) (s s' : St) (tx : Tx) (vm : Vm
   cases hf : er.failed <;> simp
 
 /-- NOBODY ELSE: an account that is neither the sender, nor the recipient / new contract, nor named
-    by a balance call of the interpreter keeps its balance — also when the interpreter's own
-    reverts left a dirty mark on it (`vm.touched` is unconstrained) -/
+    by a balance call of the interpreter keeps its balance -/
 theorem bystander_untouched (env : Env) (s s' : St) (tx : Tx) (vm : VmOut) (r : Resp) (c : Addr)
     (h0 : s.cache = []) (hcs : c ≠ tx.sender) (hct : tx.to ≠ some c) (hcn : c ≠ env.newAddr)
     (heff : ∀ e ∈ vm.effs, e.addr ≠ c)
@@ -215,49 +223,88 @@ theorem precheck_failure_reports_no_gas (env : Env) (s s' : St) (tx : Tx) (vm : 
 theorem checktx_changes_nothing (env : Env) (s : St) (tx : Tx) : (checkOlvm env s tx).1 = s := by
   unfold checkOlvm; split <;> rfl
 
-/-! ## nothing created, nothing lost
+/-! ## nothing created; lost only what a deleted account still holds
 
-  Until commit da864f3 this clause was false of the code (S8 / former KF-C17-1): `Finalise` drops a
-  selfdestructed object through `deleteStateObject` → `RemoveAccount`, which deleted the keeper
-  record only, so the balance record of the contract kept what it held before the transaction
-  although the interpreter had already paid that amount to the beneficiary. `RemoveAccount` now
-  writes the removed account's coins to the balance store; the model follows the repaired code and
-  the theorem holds with SELFDESTRUCT included. The create / fund / trigger scenario is replayed on
-  the implementation on every run (scripted case 0; monitor signature
-  `selfdestructed-contract-keeps-its-balance-record`). -/
+  History of this clause: until da864f3 `RemoveAccount` deleted the keeper record only, so a
+  selfdestructed contract kept its balance record and value was CREATED (S8, former KF-C17-1).
+  The first repair wrote the object's working balance; c90a103 writes zero: a removed account is
+  gone with whatever it holds, so what a contract is paid AFTER its SELFDESTRUCT in the same
+  transaction is burnt, as in go-ethereum. The clause therefore reads: the total never grows, and
+  it shrinks exactly by `burnt` — what the objects `Finalise` drops still hold. Both scenarios
+  (create / fund / trigger; pay-the-dead) are replayed on the implementation on every run (scripted
+  cases 0 and 3). -/
 
-/-- VALUE CONSERVATION, full statement. For every state, transaction and interpreter behaviour —
-    executed, reverted or refused; with inner transfers and SELFDESTRUCT — the sum of all OLT
-    balance records plus the fee pool is unchanged. The only hypothesis besides the empty object
-    cache (an invariant of every history) is the contract of the interpreter itself: the balance
-    calls it makes on the state it is handed (`vmInput`) net to zero (`vmNet`): an inner transfer
-    credits what it debits, SELFDESTRUCT pays the beneficiary exactly what `Suicide` then clears.
-    No assumption on signs of balances, fees or on which accounts are debited.
-    This is the `…_conserves_value` instance C02 imports for the OLVM handler. -/
-theorem olvm_conserves_value (env : Env) (s s' : St) (tx : Tx) (vm : VmOut) (r : Resp)
+/-- VALUE ACCOUNTING, exact, for every state, transaction and interpreter behaviour — executed,
+    reverted or refused; inner transfers and SELFDESTRUCT included: the sum of all OLT balance
+    records plus the fee pool changes by exactly minus the burnt amount. Hypotheses: the empty
+    object cache (an invariant of every history) and the contract of the interpreter itself: the
+    balance calls it makes on the state it is handed (`vmInput`) net to zero (`vmNet`): an inner
+    transfer credits what it debits, SELFDESTRUCT pays the beneficiary exactly what `Suicide` then
+    clears. -/
+theorem olvm_value_accounting (env : Env) (s s' : St) (tx : Tx) (vm : VmOut) (r : Resp)
     (h0 : s.cache = []) (hz : vmNet (vmInput env s tx) vm.effs = 0)
     (h : deliverOlvm env s tx vm = (s', r)) :
-    total s'.w.bal + s'.w.pool = total s.w.bal + s.w.pool := by
+    total s'.w.bal + s'.w.pool = total s.w.bal + s.w.pool - burnt env s tx vm := by
   by_cases hc : r.code = 0
-  · obtain ⟨s1, er, hv, ht, hne, -, rfl, rfl⟩ := deliver_ok env s s' tx vm r h hc
+  · obtain ⟨s1, er, hv, ht, hne, hle, rfl, rfl⟩ := deliver_ok env s s' tx vm r h hc
     obtain ⟨hw, hwf⟩ := transitionDb_ok_w env s s1 tx vm er (wf_of_empty s h0) ht
     have hmir := mirror_transitionDb env s s1 tx vm er h0 ht
     obtain ⟨gf, hu, hpend⟩ := pend_transitionDb env s s1 tx vm er h0 hz ht
+    rw [burnt_of_ok env s s1 tx vm er hv ht hne hle]
     simp only
     rw [total_finalise s1 hwf hmir, finalise_w, finW_pool, hw, hpend]
     have hlt : gf < gasU tx := by omega
     have hcast : ((er.usedGas : Nat) : Int) = (gasU tx : Int) - (gf : Int) := by omega
     rw [hcast, Int.mul_sub, Int.mul_comm tx.price, Int.mul_comm tx.price]
     omega
-  · rcases deliver_refused env s s' tx vm r h hc with rfl | rfl <;> rfl
+  · rw [burnt_of_refused env s s' tx vm r h hc]
+    rcases deliver_refused env s s' tx vm r h hc with rfl | rfl <;> simp
 
-/-- the state-independent form of the hypothesis when no SELFDESTRUCT survives: the credits of
+/-- VALUE CONSERVATION: when no deleted object holds a balance (`burnt = 0`: every run in which no
+    contract is paid after its own SELFDESTRUCT), the total is unchanged -/
+theorem olvm_conserves_value (env : Env) (s s' : St) (tx : Tx) (vm : VmOut) (r : Resp)
+    (h0 : s.cache = []) (hz : vmNet (vmInput env s tx) vm.effs = 0) (hb : burnt env s tx vm = 0)
+    (h : deliverOlvm env s tx vm = (s', r)) :
+    total s'.w.bal + s'.w.pool = total s.w.bal + s.w.pool := by
+  rw [olvm_value_accounting env s s' tx vm r h0 hz h, hb]; omega
+
+/-- THE TOTAL NEVER GROWS: in general `burnt ≥ 0`, given two more facts about the interpreter: its
+    credits are non-negative amounts and the sender (an account without code) does not
+    selfdestruct -/
+theorem olvm_total_never_grows (env : Env) (s s' : St) (tx : Tx) (vm : VmOut) (r : Resp)
+    (h0 : s.cache = []) (hz : vmNet (vmInput env s tx) vm.effs = 0)
+    (hadd : ∀ a n, Eff.add a n ∈ vm.effs → 0 ≤ n) (hsnd : Eff.suicide tx.sender ∉ vm.effs)
+    (h : deliverOlvm env s tx vm = (s', r)) :
+    0 ≤ burnt env s tx vm ∧ total s'.w.bal + s'.w.pool ≤ total s.w.bal + s.w.pool := by
+  have hacc := olvm_value_accounting env s s' tx vm r h0 hz h
+  have hb : 0 ≤ burnt env s tx vm := by
+    by_cases hc : r.code = 0
+    · obtain ⟨s1, er, hv, ht, hne, hle, -, -⟩ := deliver_ok env s s' tx vm r h hc
+      obtain ⟨-, hwf⟩ := transitionDb_ok_w env s s1 tx vm er (wf_of_empty s h0) ht
+      rw [burnt_of_ok env s s1 tx vm er hv ht hne hle]
+      exact burntAt_nonneg tx.sender s1 hwf (suiOk_transitionDb env s s1 tx vm er h0 hadd hsnd ht)
+    · rw [burnt_of_refused env s s' tx vm r h hc]; omega
+  exact ⟨hb, by omega⟩
+
+/-- nothing is burnt when no `Suicide` call of the interpreter survives -/
+theorem nothing_burnt_without_selfdestruct (env : Env) (s s' : St) (tx : Tx) (vm : VmOut) (r : Resp)
+    (h0 : s.cache = []) (hn : noSuicide vm.effs = true)
+    (h : deliverOlvm env s tx vm = (s', r)) : burnt env s tx vm = 0 := by
+  by_cases hc : r.code = 0
+  · obtain ⟨s1, er, hv, ht, hne, hle, -, -⟩ := deliver_ok env s s' tx vm r h hc
+    obtain ⟨-, hwf⟩ := transitionDb_ok_w env s s1 tx vm er (wf_of_empty s h0) ht
+    rw [burnt_of_ok env s s1 tx vm er hv ht hne hle]
+    exact burntAt_zero_of_noSui s1 hwf (noSui_transitionDb env s s1 tx vm er h0 hn ht)
+  · exact burnt_of_refused env s s' tx vm r h hc
+
+/-- conservation in the state-independent form, for every run without SELFDESTRUCT: the credits of
     the interpreter's calls equal its debits -/
 theorem olvm_conserves_value_balanced_effs (env : Env) (s s' : St) (tx : Tx) (vm : VmOut) (r : Resp)
     (h0 : s.cache = []) (hn : noSuicide vm.effs = true) (hz : effSum vm.effs = 0)
     (h : deliverOlvm env s tx vm = (s', r)) :
     total s'.w.bal + s'.w.pool = total s.w.bal + s.w.pool :=
-  olvm_conserves_value env s s' tx vm r h0 (by rw [vmNet_noSuicide _ _ hn, hz]) h
+  olvm_conserves_value env s s' tx vm r h0 (by rw [vmNet_noSuicide _ _ hn, hz])
+    (nothing_burnt_without_selfdestruct env s s' tx vm r h0 hn h) h
 
 /-- … in particular, unconditionally on the interpreter, for every transaction during which no
     balance call of the interpreter survives: all plain transfers, every reverted or out-of-gas
@@ -266,24 +313,39 @@ theorem olvm_conserves_value_no_inner_moves (env : Env) (s s' : St) (tx : Tx) (v
     (h0 : s.cache = []) (he : vm.effs = [])
     (h : deliverOlvm env s tx vm = (s', r)) :
     total s'.w.bal + s'.w.pool = total s.w.bal + s.w.pool :=
-  olvm_conserves_value env s s' tx vm r h0 (by rw [he]; rfl) h
+  olvm_conserves_value_balanced_effs env s s' tx vm r h0 (by rw [he]; rfl) (by rw [he]; rfl) h
 
 def cxEnv : Env := ⟨true, 1, 1000000, "n"⟩
-def cxTx : Tx := ⟨"a", some "c", 0, 7, 30000, 1, 1, 0, 110, some 0, 1, true, true, true, true, true, true, false⟩
+def cxTx : Tx := { okTx with to := some "c", value := 7, gas := 30000, nz := 1 }
 /-- `c` is a contract holding 5; called with value 7 it pays 12 to `b` and selfdestructs -/
 def cxState : St := ⟨⟨[("a", 100000), ("c", 5)], [("c", ⟨1, true⟩)], 0⟩, []⟩
-def cxVm : VmOut := ⟨1000, 0, false, false, [.add "b" 12, .suicide "c"], []⟩
+def cxVm : VmOut := ⟨1000, 0, false, false, [.add "b" 12, .suicide "c"]⟩
 
-/-- SELFDESTRUCT (the former counterexample, now a regression example): the hypothesis of
-    `olvm_conserves_value` holds, the beneficiary gets everything, the contract's record is 0,
-    its keeper record is gone, and the total is unchanged -/
+/-- SELFDESTRUCT (the former counterexample to conservation, now a regression example): the
+    hypotheses of `olvm_conserves_value` hold, the beneficiary gets everything, the contract's record
+    is 0, its keeper record is gone, nothing is burnt and the total is unchanged -/
 theorem selfdestruct_conserves_value :
     let out := deliverOlvm cxEnv cxState cxTx cxVm
-    vmNet (vmInput cxEnv cxState cxTx) cxVm.effs = 0 ∧
+    vmNet (vmInput cxEnv cxState cxTx) cxVm.effs = 0 ∧ burnt cxEnv cxState cxTx cxVm = 0 ∧
     out.2.code = 0 ∧ out.2.stage = .success ∧
     nativeBalance out.1.w "b" = 12 ∧ nativeBalance out.1.w "c" = 0 ∧
     alookup "c" out.1.w.keeper = none ∧
     total out.1.w.bal + out.1.w.pool = total cxState.w.bal + cxState.w.pool := by
+  decide
+
+/-- PAY THE DEAD: contract `p` (holding 3) is called with value 7, calls `c` (holding 5), which pays
+    its 5 to `b` and selfdestructs, and then pays `c` 1: `c` is deleted with that 1 — the record is 0,
+    the keeper record gone, exactly 1 is burnt, the total shrinks by 1 and does not grow -/
+theorem pay_the_dead_burns_exactly_that :
+    let tx : Tx := { okTx with to := some "p", value := 7, gas := 90000 }
+    let vm : VmOut := ⟨1000, 0, false, false,
+      [.sub "p" 0, .add "c" 0, .add "b" 5, .suicide "c", .sub "p" 1, .add "c" 1]⟩
+    let s : St := ⟨⟨[("a", 100000), ("p", 3), ("c", 5)], [("p", ⟨1, true⟩), ("c", ⟨1, true⟩)], 0⟩, []⟩
+    let out := deliverOlvm cxEnv s tx vm
+    vmNet (vmInput cxEnv s tx) vm.effs = 0 ∧ burnt cxEnv s tx vm = 1 ∧ out.2.code = 0 ∧
+    nativeBalance out.1.w "p" = 9 ∧ nativeBalance out.1.w "b" = 5 ∧ nativeBalance out.1.w "c" = 0 ∧
+    alookup "c" out.1.w.keeper = none ∧
+    total out.1.w.bal + out.1.w.pool = total s.w.bal + s.w.pool - 1 := by
   decide
 
 /-- S12 (outside the statement of C17, which only asks for "+1"; relevant to C05): only
@@ -292,9 +354,9 @@ theorem selfdestruct_conserves_value :
     nonce of an executed OLVM transaction is not unique per sender. Witness replayed on the
     implementation by scripted case 1 (counters `s12_*`). -/
 theorem nonce_above_state_executes_and_can_be_reused :
-    let tx1 : Tx := ⟨"a", some "t", 2, 11, 21000, 1, 0, 0, 110, some 2, 1, true, true, true, true, true, true, false⟩
+    let tx1 : Tx := { okTx with nonce := 2, value := 11, memo := some 2 }
     let tx2 : Tx := { tx1 with value := 22 }
-    let vm : VmOut := ⟨0, 0, false, false, [], []⟩
+    let vm : VmOut := ⟨0, 0, false, false, []⟩
     let s0 : St := ⟨⟨[("a", 100000)], [], 0⟩, []⟩
     let o1 := deliverOlvm cxEnv s0 tx1 vm
     let o2 := deliverOlvm cxEnv o1.1 tx2 vm
@@ -309,8 +371,8 @@ theorem nonce_above_state_executes_and_can_be_reused :
     expected ones (gas used 21000 at price 3) -/
 example :
     let env : Env := ⟨true, 1, 1000000, "n"⟩
-    let tx : Tx := ⟨"a", some "t", 4, 500, 25000, 3, 0, 0, 110, some 4, 1, true, true, true, true, true, true, false⟩
-    let vm : VmOut := ⟨0, 0, false, false, [], []⟩
+    let tx : Tx := { okTx with nonce := 4, value := 500, gas := 25000, price := 3, memo := some 4 }
+    let vm : VmOut := ⟨0, 0, false, false, []⟩
     let s : St := ⟨⟨[("a", 100000), ("t", 9), ("z", 1)], [("a", ⟨4, false⟩)], 40⟩, []⟩
     let out := deliverOlvm env s tx vm
     s.cache = [] ∧ tx.to ≠ some tx.sender ∧ tx.sender ≠ env.newAddr ∧ (∀ e ∈ vm.effs, e.addr ≠ tx.sender) ∧
@@ -323,8 +385,8 @@ example :
     the nonce still goes up -/
 example :
     let env : Env := ⟨true, 1, 1000000, "n"⟩
-    let tx : Tx := ⟨"a", some "c", 0, 500, 30000, 2, 1, 0, 110, some 0, 1, true, true, true, true, true, true, false⟩
-    let vm : VmOut := ⟨0, 0, true, false, [], []⟩
+    let tx : Tx := { okTx with to := some "c", value := 500, gas := 30000, price := 2, nz := 1 }
+    let vm : VmOut := ⟨0, 0, true, false, []⟩
     let s : St := ⟨⟨[("a", 100000)], [("c", ⟨1, true⟩)], 0⟩, []⟩
     let out := deliverOlvm env s tx vm
     out.2.code = 0 ∧ out.2.stage = .reverted ∧ out.2.gasUsed = 30000 ∧
@@ -335,8 +397,8 @@ example :
 /-- a creation at a pre-funded address with a refund: gas used = 60000 − (5000 + min(55000/3, 4800)) -/
 example :
     let env : Env := ⟨true, 1, 1000000, "n"⟩
-    let tx : Tx := ⟨"a", none, 0, 7, 60000, 1, 10, 2, 130, some 0, 1, true, true, true, true, true, true, false⟩
-    let vm : VmOut := ⟨5000, 4800, false, true, [], []⟩
+    let tx : Tx := { okTx with to := none, value := 7, gas := 60000, nz := 10, z := 2, size := 130 }
+    let vm : VmOut := ⟨5000, 4800, false, true, []⟩
     let s : St := ⟨⟨[("a", 100000), ("n", 3)], [], 0⟩, []⟩
     let out := deliverOlvm env s tx vm
     tx.to = none ∧ env.newAddr ≠ tx.sender ∧ out.2.code = 0 ∧ out.2.stage = .success ∧ out.2.gasUsed = 50200 ∧
@@ -348,8 +410,8 @@ example :
     value movement (contract `c` passes the 7 it receives on to `t`), and the total is unchanged -/
 example :
     let env : Env := ⟨true, 1, 1000000, "n"⟩
-    let tx : Tx := ⟨"a", some "c", 0, 7, 90000, 1, 0, 0, 110, some 0, 1, true, true, true, true, true, true, false⟩
-    let vm : VmOut := ⟨20000, 0, false, false, [.sub "c" 7, .add "t" 7], []⟩
+    let tx : Tx := { okTx with to := some "c", value := 7, gas := 90000 }
+    let vm : VmOut := ⟨20000, 0, false, false, [.sub "c" 7, .add "t" 7]⟩
     let s : St := ⟨⟨[("a", 100000), ("c", 5)], [("c", ⟨1, true⟩)], 0⟩, []⟩
     let out := deliverOlvm env s tx vm
     s.cache = [] ∧ vmNet (vmInput env s tx) vm.effs = 0 ∧ out.2.code = 0 ∧
@@ -360,23 +422,29 @@ example :
 /-- refused transactions of both kinds (Validate: nonce too low; TransitionDb: block gas pool) meet
     the hypothesis of `precheck_failure_noop` -/
 example :
-    let tx : Tx := ⟨"a", some "t", 1, 5, 21000, 1, 0, 0, 110, some 1, 1, true, true, true, true, true, true, false⟩
-    let vm : VmOut := ⟨0, 0, false, false, [], []⟩
+    let tx : Tx := { okTx with nonce := 1, value := 5, memo := some 1 }
+    let vm : VmOut := ⟨0, 0, false, false, []⟩
     let s : St := ⟨⟨[("a", 100000)], [("a", ⟨2, false⟩)], 0⟩, []⟩
     (deliverOlvm ⟨true, 1, 1000000, "n"⟩ s tx vm).2.stage = .invalid .nonceLow ∧
     (deliverOlvm ⟨true, 1, 20000, "n"⟩ s { tx with nonce := 2, memo := some 2 } vm).2.stage = .consensus .gasPool ∧
     (deliverOlvm ⟨true, 1, 20000, "n"⟩ s { tx with nonce := 2, memo := some 2 } vm).1 = s := by
   decide
 
-/-- the two inputs that used to panic in `validateSigner` are refused like any other invalid
-    transaction, the missing chain id first -/
+/-- the inputs that used to panic in `validateSigner` and the spellings that used to be admitted
+    although they are outside the signature are refused like any other invalid transaction, in the
+    order of the Go code, and change nothing -/
 example :
-    let tx : Tx := ⟨"a", some "t", 0, 5, 21000, 1, 0, 0, 110, some 0, 1, true, true, true, true, true, true, false⟩
-    let vm : VmOut := ⟨0, 0, false, false, [], []⟩
+    let tx : Tx := { okTx with value := 5 }
+    let vm : VmOut := ⟨0, 0, false, false, []⟩
     let s : St := ⟨⟨[("a", 100000)], [], 0⟩, []⟩
+    (deliverOlvm cxEnv s tx vm).2.code = 0 ∧
     (deliverOlvm cxEnv s { tx with sigOk := false } vm).2.stage = .invalid .sigBad ∧
     (deliverOlvm cxEnv s { tx with chainNil := true, chainOk := false, sigOk := false } vm).2.stage = .invalid .chainId ∧
-    (deliverOlvm cxEnv s { tx with sigOk := false } vm).1 = s := by
+    (deliverOlvm cxEnv s { tx with payloadCanon := false, sigs := 2 } vm).2.stage = .invalid .payloadEnc ∧
+    (deliverOlvm cxEnv s { tx with signerKeyOk := false, typeOk := false } vm).2.stage = .invalid .signerKey ∧
+    (deliverOlvm cxEnv s { tx with typeOk := false } vm).2.stage = .invalid .txType ∧
+    (deliverOlvm cxEnv s { tx with memoCanon := false } vm).2.stage = .invalid .memoNonce ∧
+    (deliverOlvm cxEnv s { tx with memoCanon := false } vm).1 = s := by
   decide
 
 end OLP.Props.C17
